@@ -424,3 +424,273 @@ Proof.
   cbn. rewrite Htr. unfold w1; cbn. split; [|reflexivity].
   reflexivity.
 Qed.
+
+(* ---------- a LIST of members: staging by the per-file protocol, then the commit of every member ---------- *)
+Lemma accepts_app F isfont old new tr1 : forall st tr2,
+  accepts F isfont old new st (tr1 ++ tr2) =
+  accepts F isfont old new st tr1 && accepts F isfont old new (dexec st tr1) tr2.
+Proof.
+  induction tr1 as [|e tr1 IH]; intros st tr2; cbn; [reflexivity|]. rewrite IH, andb_assoc. reflexivity.
+Qed.
+Lemma dexec_app tr1 st tr2 : dexec st (tr1 ++ tr2) = dexec (dexec st tr1) tr2.
+Proof. unfold dexec. apply fold_left_app. Qed.
+
+Section Coll.
+Variable F : list positive.
+Variable isfont : positive -> bool.
+Variables old new : positive -> option bytes.
+Notation Inv' := (Inv F isfont old new).
+Notation accepts' := (accepts F isfont old new).
+
+(* n is staged in G: bound there to an inode that holds exactly data, all of it flushed *)
+Definition staged (st : dst) (G : list positive) (n : positive) (data : bytes) : Prop :=
+  exists i, resolve st G n = Some i /\ s_ino st !! i = Some (Ino data (length data)).
+
+Lemma stage_member st ddG (G : list positive) t n data :
+  Inv' st -> G <> F -> s_dir st !! G = Some ddG -> t <> n ->
+  accepts' st (gob_trace G t n data) = true /\
+  staged (dexec st (gob_trace G t n data)) G n data /\
+  s_dir (dexec st (gob_trace G t n data)) !! F = s_dir st !! F /\
+  (forall i, (i < s_next st)%positive -> s_ino (dexec st (gob_trace G t n data)) !! i = s_ino st !! i) /\
+  is_Some (s_dir (dexec st (gob_trace G t n data)) !! G) /\
+  (forall n', n' <> n -> n' <> t -> resolve (dexec st (gob_trace G t n data)) G n' = resolve st G n') /\
+  s_next (dexec st (gob_trace G t n data)) = Pos.succ (s_next st).
+Proof.
+  intros (HI & HJ) HGF Hd Htn.
+  set (i0 := s_next st).
+  set (dd1 := DD (d_dur ddG) (d_pend ddG ++ [ELink t i0])).
+  set (st1 := DS (<[i0 := Ino [] 0]> (s_ino st)) (<[G := dd1]> (s_dir st)) (Pos.succ i0)).
+  set (st2 := DS (<[i0 := Ino data 0]> (s_ino st1)) (s_dir st1) (s_next st1)).
+  set (st4 := DS (<[i0 := Ino data (length data)]> (s_ino st2)) (s_dir st2) (s_next st2)).
+  set (dd7 := DD (d_dur ddG) ((d_pend ddG ++ [ELink t i0]) ++ [ELink n i0; EUnlink t])).
+  set (st7 := DS (s_ino st4) (<[G := dd7]> (s_dir st4)) (s_next st4)).
+  set (st8 := DS (s_ino st7) (<[G := DD (vol_entries dd7) []]> (s_dir st7)) (s_next st7)).
+  assert (E1 : dstep st (DEv DCreateTemp (PFile G t) (PFile G t) None []) = st1).
+  { unfold dstep, pend. cbn. rewrite Hd. reflexivity. }
+  assert (R1 : resolve st1 G t = Some i0).
+  { eapply (resolve_last st1 G dd1); [apply lookup_insert|reflexivity|reflexivity]. }
+  assert (E2 : dstep st1 (DEv DEncode (PFile G t) (PFile G t) None data) = st2).
+  { unfold dstep. cbn [de_op de_p de_q de_data]. rewrite R1. unfold st1 at 1. cbn [s_ino]. rewrite lookup_insert. reflexivity. }
+  assert (R2 : resolve st2 G t = Some i0) by exact R1.
+  assert (E4 : dstep st2 (DEv DSync (PFile G t) (PFile G t) None []) = st4).
+  { unfold dstep. cbn [de_op de_p de_q ok_ev de_res]. rewrite R2. unfold st2 at 1. cbn [s_ino]. rewrite lookup_insert. reflexivity. }
+  assert (R4 : resolve st4 G t = Some i0) by exact R1.
+  assert (E7 : dstep st4 (DEv DRename (PFile G t) (PFile G n) None []) = st7).
+  { unfold dstep. cbn [de_op de_p de_q ok_ev de_res]. rewrite R4. rewrite bool_decide_eq_true_2 by reflexivity.
+    unfold pend. assert (Hd4 : s_dir st4 !! G = Some dd1) by apply lookup_insert. rewrite Hd4. reflexivity. }
+  assert (E8 : dstep st7 (DEv DSyncDir (PDir G) (PDir G) None []) = st8).
+  { unfold dstep. cbn [de_op de_p de_q ok_ev de_res].
+    assert (Hd7 : s_dir st7 !! G = Some dd7) by apply lookup_insert. rewrite Hd7. reflexivity. }
+  assert (Ex : dexec st (gob_trace G t n data) = st8).
+  { unfold dexec, gob_trace. cbn [fold_left]. rewrite E1, E2.
+    change (dstep st2 (DEv DChmod (PFile G t) (PFile G t) None [])) with st2. rewrite E4.
+    change (dstep st4 (DEv DClose (PFile G t) (PFile G t) None [])) with st4.
+    change (dstep st4 (DEv DVerify (PFile G t) (PFile G t) None [])) with st4. rewrite E7, E8. reflexivity. }
+  assert (Hi4 : s_ino st4 !! i0 = Some (Ino data (length data))) by apply lookup_insert.
+  rewrite Ex. split; [|split; [|split; [|split; [|split; [|split; [|reflexivity]]]]]].
+  - unfold gob_trace. cbn [accepts]. rewrite E1, E2.
+    change (dstep st2 (DEv DChmod (PFile G t) (PFile G t) None [])) with st2. rewrite E4.
+    change (dstep st4 (DEv DClose (PFile G t) (PFile G t) None [])) with st4.
+    change (dstep st4 (DEv DVerify (PFile G t) (PFile G t) None [])) with st4. rewrite E7.
+    assert (S1 : ev_safe F isfont old new st (DEv DCreateTemp (PFile G t) (PFile G t) None []) = true).
+    { unfold ev_safe. cbn. rewrite (bool_decide_eq_false_2 (G = F)) by exact HGF. reflexivity. }
+    assert (S2 : ev_safe F isfont old new st1 (DEv DEncode (PFile G t) (PFile G t) None data) = true).
+    { unfold ev_safe. cbn [de_op de_p de_q]. rewrite R1. apply negb_true_iff. unfold in_F.
+      assert (HF1 : s_dir st1 !! F = s_dir st !! F) by (unfold st1; cbn [s_dir]; apply lookup_insert_ne; exact HGF).
+      rewrite HF1. destruct (s_dir st !! F) as [ddF|] eqn:HdF; [|reflexivity].
+      destruct (existsb _ (links_of ddF)) eqn:Ee; [|reflexivity]. exfalso.
+      apply existsb_exists in Ee. destruct Ee as ([n' i'] & Hin & Hc). cbn in Hc.
+      apply andb_true_iff in Hc. destruct Hc as (Hf' & Hi'). apply Pos.eqb_eq in Hi'. subst i'.
+      assert (Hg : good old new st n' i0 = true).
+      { apply HI; [exact Hf'|]. exists ddF. split; [exact HdF|exact Hin]. }
+      apply good_dom, HJ in Hg. unfold i0 in Hg. lia. }
+    assert (S7 : ev_safe F isfont old new st4 (DEv DRename (PFile G t) (PFile G n) None []) = true).
+    { unfold ev_safe. cbn [de_op de_p de_q ok_ev de_res]. rewrite (bool_decide_eq_false_2 (G = F)) by exact HGF. reflexivity. }
+    rewrite S1, S2, S7. reflexivity.
+  - exists i0. split.
+    + unfold resolve. assert (Hd8 : s_dir st8 !! G = Some (DD (vol_entries dd7) [])) by apply lookup_insert.
+      rewrite Hd8. unfold vol_entries at 1. cbn [d_dur d_pend apply_eops fold_left].
+      unfold vol_entries, dd7. cbn [d_dur d_pend]. rewrite apply_eops_app. cbn.
+      rewrite lookup_delete_ne by exact Htn. apply lookup_insert.
+    + exact Hi4.
+  - unfold st8, st7, st4, st2, st1. cbn [s_dir]. rewrite !lookup_insert_ne by exact HGF. reflexivity.
+  - intros i Hi. assert (i <> i0) by (unfold i0; lia).
+    unfold st8, st7, st4, st2, st1. cbn [s_ino]. rewrite !lookup_insert_ne by congruence. reflexivity.
+  - assert (Hd8 : s_dir st8 !! G = Some (DD (vol_entries dd7) [])) by apply lookup_insert. rewrite Hd8. eauto.
+  - intros n' Hn Ht. unfold resolve. assert (Hd8 : s_dir st8 !! G = Some (DD (vol_entries dd7) [])) by apply lookup_insert.
+    rewrite Hd8, Hd. unfold vol_entries at 1. cbn [d_dur d_pend apply_eops fold_left].
+    unfold vol_entries, dd7. cbn [d_dur d_pend]. rewrite !apply_eops_app. cbn.
+    rewrite lookup_delete_ne by congruence. rewrite !lookup_insert_ne by congruence. reflexivity.
+Qed.
+
+Lemma vol_entries_nil m : vol_entries (DD m []) = m.
+Proof. reflexivity. Qed.
+
+Lemma durable_now_untouched (st st' : dst) ddF ddF' m dm :
+  s_dir st !! F = Some ddF -> s_dir st' !! F = Some ddF' -> s_ino st' = s_ino st ->
+  d_pend ddF' = [] ->
+  (forallb (fun o => negb (touches m o)) (d_pend ddF) = true -> d_dur ddF' !! m = d_dur ddF !! m) ->
+  durable_now F st m dm = true -> durable_now F st' m dm = true.
+Proof.
+  intros Hd Hd' Hino Hp Hdur H. unfold durable_now in *. rewrite Hd in H. rewrite Hd', Hp, Hino. cbn [forallb andb].
+  apply andb_true_iff in H. destruct H as (H1 & H2). rewrite Hdur; [exact H2|].
+  erewrite forallb_ext'; [exact H1|]. intros [k i'|k]; reflexivity.
+Qed.
+
+(* committing one staged member: rename staging -> font directory ; fsync(staging) ; fsync(font directory) *)
+Lemma commit_member st ddF ddG (G : list positive) n data :
+  Inv' st -> G <> F -> s_dir st !! F = Some ddF -> s_dir st !! G = Some ddG ->
+  staged st G n data -> isfont n = true -> new n = Some data ->
+  accepts' st (commit_trace G F n) = true /\
+  durable_now F (dexec st (commit_trace G F n)) n data = true /\
+  (forall m dm, m <> n -> durable_now F st m dm = true -> durable_now F (dexec st (commit_trace G F n)) m dm = true) /\
+  (forall m dm, m <> n -> staged st G m dm -> staged (dexec st (commit_trace G F n)) G m dm) /\
+  is_Some (s_dir (dexec st (commit_trace G F n)) !! F) /\ is_Some (s_dir (dexec st (commit_trace G F n)) !! G).
+Proof.
+  intros (HI & HJ) HGF HdF HdG (i & Hr & Hi) Hfn Hnew.
+  set (ddF1 := DD (d_dur ddF) (d_pend ddF ++ [ELink n i])).
+  set (ddG1 := DD (d_dur ddG) (d_pend ddG ++ [EUnlink n])).
+  set (stA := DS (s_ino st) (<[F := ddF1]> (s_dir st)) (s_next st)).
+  set (stB := DS (s_ino st) (<[G := ddG1]> (s_dir stA)) (s_next st)).
+  set (stC := DS (s_ino st) (<[G := DD (vol_entries ddG1) []]> (s_dir stB)) (s_next st)).
+  set (stD := DS (s_ino st) (<[F := DD (vol_entries ddF1) []]> (s_dir stC)) (s_next st)).
+  assert (HFG : F <> G) by congruence.
+  assert (E1 : dstep st (DEv DRename (PFile G n) (PFile F n) None []) = stB).
+  { unfold dstep. cbn [de_op de_p de_q ok_ev de_res]. rewrite Hr. rewrite (bool_decide_eq_false_2 (G = F)) by exact HGF.
+    unfold pend at 2. rewrite HdF. fold ddF1. fold stA. unfold pend.
+    assert (HA : s_dir stA !! G = Some ddG) by (unfold stA; cbn [s_dir]; rewrite lookup_insert_ne by exact HFG; exact HdG).
+    rewrite HA. reflexivity. }
+  assert (E2 : dstep stB (DEv DSyncDir (PDir G) (PDir G) None []) = stC).
+  { unfold dstep. cbn [de_op de_p de_q ok_ev de_res].
+    assert (HB : s_dir stB !! G = Some ddG1) by apply lookup_insert. rewrite HB. reflexivity. }
+  assert (E3 : dstep stC (DEv DSyncDir (PDir F) (PDir F) None []) = stD).
+  { unfold dstep. cbn [de_op de_p de_q ok_ev de_res].
+    assert (HC : s_dir stC !! F = Some ddF1).
+    { unfold stC, stB, stA. cbn [s_dir]. rewrite !lookup_insert_ne by exact HGF. apply lookup_insert. }
+    rewrite HC. reflexivity. }
+  assert (Ex : dexec st (commit_trace G F n) = stD).
+  { unfold dexec, commit_trace. cbn [fold_left]. rewrite E1, E2, E3. reflexivity. }
+  assert (HdFD : s_dir stD !! F = Some (DD (vol_entries ddF1) [])) by apply lookup_insert.
+  assert (HdGD : s_dir stD !! G = Some (DD (vol_entries ddG1) [])).
+  { unfold stD. cbn [s_dir]. rewrite lookup_insert_ne by exact HFG. apply lookup_insert. }
+  rewrite Ex. split; [|split; [|split; [|split; [|split]]]].
+  - unfold commit_trace. cbn [accepts]. rewrite E1, E2.
+    assert (S1 : ev_safe F isfont old new st (DEv DRename (PFile G n) (PFile F n) None []) = true).
+    { unfold ev_safe. cbn [de_op de_p de_q ok_ev de_res]. rewrite Hr. rewrite bool_decide_eq_true_2 by reflexivity.
+      rewrite Hfn. cbn [negb orb]. unfold good. rewrite Hi. cbn [i_dur i_vol]. rewrite Nat.eqb_refl.
+      unfold is_rep. rewrite Hnew. unfold bytes_eqb. rewrite (bool_decide_eq_true_2 (data = data)) by reflexivity.
+      rewrite orb_true_r. reflexivity. }
+    rewrite S1. reflexivity.
+  - unfold durable_now. rewrite HdFD. cbn [d_pend d_dur forallb andb].
+    assert (Hv : vol_entries ddF1 !! n = Some i).
+    { unfold vol_entries, ddF1. cbn [d_dur d_pend]. rewrite apply_eops_app. cbn. apply lookup_insert. }
+    rewrite Hv. change (s_ino stD) with (s_ino st). rewrite Hi. cbn [i_dur i_vol]. rewrite Nat.eqb_refl.
+    unfold bytes_eqb. rewrite bool_decide_eq_true_2 by reflexivity. reflexivity.
+  - intros m dm Hmn Hdur. eapply (durable_now_untouched st stD ddF _ m dm HdF HdFD); [reflexivity|reflexivity| |exact Hdur].
+    intros Hp. cbn [d_dur]. unfold vol_entries, ddF1. cbn [d_dur d_pend]. rewrite apply_eops_app. cbn.
+    rewrite lookup_insert_ne by congruence. apply apply_eops_untouched. exact Hp.
+  - intros m dm Hmn (j & Hrj & Hij). exists j. split; [|exact Hij].
+    unfold resolve in *. rewrite HdGD. rewrite HdG in Hrj. rewrite vol_entries_nil.
+    unfold vol_entries, ddG1. cbn [d_dur d_pend]. rewrite apply_eops_app. cbn.
+    rewrite lookup_delete_ne by congruence. exact Hrj.
+  - rewrite HdFD. eauto.
+  - rewrite HdGD. eauto.
+Qed.
+
+Lemma staged_dom st (data : bytes) i :
+  Inv' st -> s_ino st !! i = Some (Ino data (length data)) -> (i < s_next st)%positive.
+Proof. intros (_ & HJ) Hi. apply HJ. rewrite Hi. eauto. Qed.
+
+(* staging a list of members *)
+Lemma stage_all (G : list positive) ms : forall st,
+  Inv' st -> G <> F -> is_Some (s_dir st !! G) ->
+  (forall m, In m ms -> cm_tmp m <> cm_name m) ->
+  NoDup (map cm_name ms) ->
+  (forall m m', In m ms -> In m' ms -> cm_tmp m <> cm_name m') ->
+  accepts' st (stage_trace G ms) = true /\
+  (forall m, In m ms -> staged (dexec st (stage_trace G ms)) G (cm_name m) (cm_data m)) /\
+  s_dir (dexec st (stage_trace G ms)) !! F = s_dir st !! F /\
+  (forall i, (i < s_next st)%positive -> s_ino (dexec st (stage_trace G ms)) !! i = s_ino st !! i) /\
+  is_Some (s_dir (dexec st (stage_trace G ms)) !! G) /\
+  (forall n0 d0, staged st G n0 d0 -> ~ In n0 (map cm_name ms) -> ~ In n0 (map cm_tmp ms) ->
+     staged (dexec st (stage_trace G ms)) G n0 d0).
+Proof.
+  induction ms as [|m ms IH]; intros st Hinv HGF HG Htn Hnd Hdisj.
+  - cbn. split; [reflexivity|]. split; [intros m []|]. split; [reflexivity|]. split; [reflexivity|]. split; [exact HG|].
+    intros n0 d0 H _ _. exact H.
+  - destruct HG as [ddG HdG]. cbn [stage_trace flat_map]. fold (stage_trace G ms).
+    cbn [map] in Hnd. apply NoDup_cons in Hnd. destruct Hnd as (Hm & Hnd). rewrite elem_of_list_In in Hm.
+    destruct (stage_member st ddG G (cm_tmp m) (cm_name m) (cm_data m) Hinv HGF HdG) as (A1 & A2 & A3 & A4 & A5 & A6 & A7).
+    { apply Htn. left. reflexivity. }
+    set (st1 := dexec st (gob_trace G (cm_tmp m) (cm_name m) (cm_data m))) in *.
+    assert (Hinv1 : Inv' st1) by (apply accepts_inv; assumption).
+    assert (Hnext : (s_next st <= s_next st1)%positive) by (rewrite A7; lia).
+    destruct (IH st1 Hinv1 HGF A5) as (B1 & B2 & B3 & B4 & B5 & B6).
+    { intros m' Hm'. apply Htn. right. exact Hm'. }
+    { exact Hnd. }
+    { intros a b Ha Hb. apply Hdisj; right; assumption. }
+    rewrite accepts_app, dexec_app. fold st1. rewrite A1, B1. split; [reflexivity|]. split; [|split; [|split; [|split]]].
+    + intros m' [<-|Hm']; [|apply B2; exact Hm'].
+      apply B6; [exact A2|exact Hm|].
+      intros Hin. apply in_map_iff in Hin. destruct Hin as (m' & Ht & Hm').
+      apply (Hdisj m' m); [right; exact Hm'|left; reflexivity|exact Ht].
+    + rewrite B3. exact A3.
+    + intros i Hi. rewrite B4 by lia. apply A4. exact Hi.
+    + exact B5.
+    + intros n0 d0 (i & Hr & Hi) Hn0 Ht0. cbn [map] in Hn0, Ht0. apply B6.
+      * exists i. split.
+        -- rewrite A6; [exact Hr| |]; intros ->; [apply Hn0|apply Ht0]; left; reflexivity.
+        -- rewrite A4; [exact Hi|]. eapply staged_dom; [exact Hinv|exact Hi].
+      * intros H. apply Hn0. right. exact H.
+      * intros H. apply Ht0. right. exact H.
+Qed.
+
+(* committing a list of staged members *)
+Lemma commit_all (G : list positive) ms : forall st,
+  Inv' st -> G <> F -> is_Some (s_dir st !! F) -> is_Some (s_dir st !! G) ->
+  (forall m, In m ms -> staged st G (cm_name m) (cm_data m) /\ isfont (cm_name m) = true /\ new (cm_name m) = Some (cm_data m)) ->
+  NoDup (map cm_name ms) ->
+  accepts' st (commit_all_trace G F ms) = true /\
+  (forall m, In m ms -> durable_now F (dexec st (commit_all_trace G F ms)) (cm_name m) (cm_data m) = true) /\
+  (forall n0 d0, ~ In n0 (map cm_name ms) -> durable_now F st n0 d0 = true ->
+     durable_now F (dexec st (commit_all_trace G F ms)) n0 d0 = true).
+Proof.
+  induction ms as [|m ms IH]; intros st Hinv HGF HF HG Hst Hnd.
+  - cbn. split; [reflexivity|]. split; [intros m []|]. intros n0 d0 _ H. exact H.
+  - destruct HF as [ddF HdF]. destruct HG as [ddG HdG]. cbn [commit_all_trace flat_map]. fold (commit_all_trace G F ms).
+    cbn [map] in Hnd. apply NoDup_cons in Hnd. destruct Hnd as (Hm & Hnd). rewrite elem_of_list_In in Hm.
+    destruct (Hst m (or_introl eq_refl)) as (Hs & Hf & Hn).
+    destruct (commit_member st ddF ddG G (cm_name m) (cm_data m) Hinv HGF HdF HdG Hs Hf Hn) as (A1 & A2 & A3 & A4 & A5 & A6).
+    set (st1 := dexec st (commit_trace G F (cm_name m))) in *.
+    assert (Hinv1 : Inv' st1) by (apply accepts_inv; assumption).
+    destruct (IH st1 Hinv1 HGF A5 A6) as (B1 & B2 & B3).
+    { intros m' Hm'. destruct (Hst m' (or_intror Hm')) as (Hs' & Hf' & Hn'). split; [|split; assumption].
+      apply A4; [|exact Hs']. intros E. apply Hm. rewrite <- E. apply in_map. exact Hm'. }
+    { exact Hnd. }
+    rewrite accepts_app, dexec_app. fold st1. rewrite A1, B1. split; [reflexivity|]. split.
+    + intros m' [<-|Hm']; [|apply B2; exact Hm']. apply B3; [exact Hm|exact A2].
+    + intros n0 d0 Hn0 Hd. cbn [map] in Hn0. apply B3; [intros H; apply Hn0; right; exact H|].
+      apply A3; [|exact Hd]. intros ->. apply Hn0. left. reflexivity.
+Qed.
+
+(* the whole collection: stage every member by the per-file protocol, then commit every member *)
+Lemma collection_durable (G : list positive) ms st :
+  Inv' st -> G <> F -> is_Some (s_dir st !! F) -> is_Some (s_dir st !! G) ->
+  (forall m, In m ms -> cm_tmp m <> cm_name m /\ isfont (cm_name m) = true /\ new (cm_name m) = Some (cm_data m)) ->
+  NoDup (map cm_name ms) ->
+  (forall m m', In m ms -> In m' ms -> cm_tmp m <> cm_name m') ->
+  accepts' st (collection_trace G F ms) = true /\
+  forall m, In m ms -> durable_now F (dexec st (collection_trace G F ms)) (cm_name m) (cm_data m) = true.
+Proof.
+  intros Hinv HGF HF HG Hms Hnd Hdisj. unfold collection_trace.
+  destruct (stage_all G ms st Hinv HGF HG) as (A1 & A2 & A3 & A4 & A5 & _).
+  { intros m Hm. apply Hms. exact Hm. } { exact Hnd. } { exact Hdisj. }
+  set (st1 := dexec st (stage_trace G ms)) in *.
+  assert (Hinv1 : Inv' st1) by (apply accepts_inv; assumption).
+  destruct (commit_all G ms st1 Hinv1 HGF) as (B1 & B2 & _).
+  { rewrite A3. exact HF. } { exact A5. }
+  { intros m Hm. destruct (Hms m Hm) as (_ & Hf & Hn). split; [apply A2; exact Hm|split; assumption]. }
+  { exact Hnd. }
+  rewrite accepts_app, dexec_app. fold st1. rewrite A1, B1. split; [reflexivity|exact B2].
+Qed.
+End Coll.
